@@ -121,6 +121,11 @@ class Check:
 
     # ---- finish --------------------------------------------------------
     def finish(self):
+        import runner as _runner
+        self.coverage["state_probes"] = _runner.PROBE_CASES[0]
+        for c, diff in _runner.PROBE_DIFFS[:3]:
+            self.violation("oracle", case=c, oracle=["after this case a fixed probe (parse + check + run of one constant script, in the same "
+                                                     "process) no longer gives what it gave before: process-wide state was changed. " + diff[:1500]])
         wall = time.time() - self.t0
         ev = {
             "property_id": self.pid,
